@@ -1169,6 +1169,74 @@ fn family_bindings(run: &Run, cnt: &Cnt, thorough: bool) -> u64 {
   models
 }
 
+/// Knowledge models whose formal parameters carry every combination of "no type", a type the argument conforms to and a
+/// type it does not conform to: an argument reaches the body unchanged unless its own parameter's type rejects it.
+fn family_parameter_types(run: &Run, cnt: &Cnt) -> u64 {
+  let names = ["a", "b", "c"];
+  let values = ["x", "y", "z"];
+  let types: [Option<&str>; 3] = [None, Some("string"), Some("number")];
+  let mut models = 0u64;
+  for n in 2..=3usize {
+    let combos = 3usize.pow(n as u32);
+    for combo in 0..combos {
+      let tys: Vec<Option<&str>> = (0..n).map(|k| types[(combo / 3usize.pow(k as u32)) % 3]).collect();
+      models += 1;
+      cnt.models.fetch_add(1, Ordering::Relaxed);
+      let mut m = Model::new("https://verif/c04p", "c04p");
+      for k in 0..n {
+        m.inputs.push(dmn::Input { name: names[k].into(), type_ref: "string".into() });
+      }
+      let body = format!("[{}]", (0..n).map(|k| names[k].to_string()).collect::<Vec<_>>().join(", "));
+      m.bkms.push(dmn::Bkm { name: "F".into(), type_ref: None, params: (0..n).map(|k| (names[k].to_string(), tys[k].map(|t| t.to_string()))).collect(), knowledge: vec![], logic: Expr::lit(&body) });
+      let requires = dmn::Requires { inputs: (0..n).map(|k| names[k].to_string()).collect(), decisions: vec![], knowledge: vec!["F".into()] };
+      m.decisions.push(dmn::Decision {
+        name: "Literal".into(),
+        type_ref: None,
+        requires: requires.clone(),
+        logic: Some(Expr::lit(&format!("F({})", (0..n).map(|k| names[k].to_string()).collect::<Vec<_>>().join(", ")))),
+      });
+      m.decisions.push(dmn::Decision {
+        name: "Named".into(),
+        type_ref: None,
+        requires: requires.clone(),
+        logic: Some(Expr::lit(&format!("F({})", (0..n).rev().map(|k| format!("{}: {}", names[k], names[k])).collect::<Vec<_>>().join(", ")))),
+      });
+      m.decisions.push(dmn::Decision {
+        name: "Boxed".into(),
+        type_ref: None,
+        requires,
+        logic: Some(Expr::Invocation("F".into(), (0..n).map(|k| (names[k].to_string(), Expr::lit(names[k]))).collect())),
+      });
+      let xml = m.to_xml();
+      let me = match dmntk_model::parse(&xml).map_err(|e| e.to_string()).and_then(|d| ModelEvaluator::new(&d).map_err(|e| e.to_string())) {
+        Ok(me) => me,
+        Err(e) => {
+          run.violation("parameter-types:model-does-not-load", &format!("generated well-formed model is rejected: {}", e), json!({"engine":"dmn","xml":xml,"invocable":"","ctx":[],"expected":"(model loads)"}));
+          continue;
+        }
+      };
+      let pairs: Vec<(String, String)> = (0..n).map(|k| (names[k].to_string(), values[k].to_string())).collect();
+      let ctx = ctx_of(&pairs);
+      let want = format!("[{}]", (0..n).map(|k| if tys[k] == Some("number") { "null".to_string() } else { format!("\"{}\"", values[k]) }).collect::<Vec<_>>().join(", "));
+      let shape = tys.iter().map(|t| t.unwrap_or("untyped")).collect::<Vec<_>>().join(",");
+      for inv in ["Literal", "Named", "Boxed"] {
+        let got = crate::rval::show_value_full(&me.evaluate_invocable(inv, &ctx));
+        cnt.evals.fetch_add(1, Ordering::Relaxed);
+        cnt.compared.fetch_add(1, Ordering::Relaxed);
+        cnt.nontrivial.fetch_add(1, Ordering::Relaxed);
+        if got != want {
+          run.violation(
+            &format!("parameter-types:{}:({})", inv, shape),
+            &format!("knowledge model F with parameter types ({}) invoked by decision `{}` with {} gives {} but each argument checked against its own parameter's type gives {}", shape, inv, ctx_text(&pairs), got, want),
+            json!({"engine":"dmn","xml":xml,"invocable":inv,"ctx":pairs.iter().map(|(k,v)| json!([k,v])).collect::<Vec<_>>(),"expected":want,"full":true}),
+          );
+        }
+      }
+    }
+  }
+  models
+}
+
 pub fn run() {
   let run = Run::new("C04");
   let thorough = run.thorough();
@@ -1200,6 +1268,7 @@ pub fn run() {
   }
   // family 3: simultaneous bindings of boxed invocations, sequential entries of boxed contexts
   n_graphs += family_bindings(&run, &cnt, thorough);
+  n_graphs += family_parameter_types(&run, &cnt);
   // family 2: decision services
   for (scheme, names) in [("plain", &PLAIN), ("colliding-names", &COLLIDING)] {
     if scheme != "plain" && !thorough {
